@@ -137,10 +137,11 @@ func drawReply(t *rapid.T, maxBulk, depth int, top bool) []byte {
 // genCuts draws write sizes for a stream of n bytes.
 func genCuts(n int) *rapid.Generator[[]int] {
 	return rapid.Custom(func(t *rapid.T) []int {
+		kind := rapid.IntRange(0, 5).Draw(t, "cutkind")
 		if n <= 1 {
 			return nil
 		}
-		switch rapid.IntRange(0, 5).Draw(t, "cutkind") {
+		switch kind {
 		case 0, 1:
 			return nil // one write
 		case 2:
